@@ -57,7 +57,7 @@ def generate(seed, tier):
     api = rng.choice(["gif", "gif", "video", "creator_gif", "solver_gif"])
     cfg = {"instance": spec, "api": api, "plot": "real" if (not long and n <= 5 and rng.random() < 0.25) else "stub",
            "earlier_episode": rng.randint(1, 6) if rng.random() < 0.3 else 0,
-           "then_shorter": rng.random() < 0.2,
+           "then_shorter": rng.random() < 0.2, "precreate_dir": rng.random() < 0.4,
            "frames_dir_name": rng.choice(["frames", "la40_gantt_chart_frames", "run7/frames", "frames_2024"]),
            "out_name": rng.choice(["out", "ft06_gantt_chart", "v2"]),
            "listdir_seed": rng.randrange(1 << 30) if rng.random() < 0.6 else None,
@@ -277,6 +277,8 @@ def execute_anim(case, ctx):
         frames_dir = cfg.get("frames_dir_name") or "frames"
         if "/" in frames_dir:
             os.makedirs(os.path.dirname(frames_dir), exist_ok=True)
+        if cfg.get("precreate_dir") and not cfg["stale"]:
+            os.makedirs(frames_dir, exist_ok=True)  # the caller created the (empty) frames directory beforehand
         if cfg["stale"] and cfg["plot"] == "stub":  # stale frames come from an earlier run with the same plotter (same image size)
             # frames left behind by an earlier run that kept its frames
             os.makedirs(frames_dir, exist_ok=True)
@@ -325,6 +327,7 @@ def execute_anim(case, ctx):
                     return
         ctx.count("animation")
         if cfg.get("then_shorter") and cfg["api"] == "gif" and cfg["plot"] == "stub" and n >= 3 and not cfg["stale"]:
+            ctx.probe("frames_directory_existed_before" if cfg.get("precreate_dir") else "frames_directory_created_by_library")
             first_images = [im for im in sink[-1][1]] if sink else []
             n2 = max(1, n // 2)
             with patched(gm, "os", ListdirProxy(cfg["listdir_seed"], ctx)), patched(gm, "imageio", ImageioProxy(imageio, sink, False)):
